@@ -23,6 +23,21 @@ static const size_t kSlots = (size_t)1 << 21;
 static Slot* g_tab;
 static long g_nlive = 0;
 static long g_calls = 0, g_failat = -1, g_fail_tid = -1;
+// backing store of the tracked allocator: a region of its own (reserved right after the scheduler's fixed heap, so at the same address in every
+// process), handed out by a bump pointer and rewound at the start of every case - blocks of earlier cases are all dead by then, and without
+// the rewind a few dozen cases of faulted compiles would use up any region (which once sent later blocks to the C library and ended a shard)
+static char* t_base = nullptr; static size_t t_top = 0; static const size_t kTRegion = (size_t)64 << 30;
+NOSCHED static void* t_grab(size_t n) {
+  n = (n + 63) & ~(size_t)63;
+  if (!t_base || t_top + n > kTRegion) { fprintf(stderr, "harness: tracked allocator region exhausted\n"); _exit(2); }
+  void* p = t_base + t_top; t_top += n; return p;
+}
+static void t_rewind() {
+  if (t_base && t_top) madvise(t_base, t_top, MADV_DONTNEED);
+  t_top = 0;
+  if (g_tab) memset(g_tab, 0, kSlots * sizeof(Slot));
+  g_nlive = 0;
+}
 NOSCHED static Slot* find_slot(void* p) {
   size_t h = ((uintptr_t)p >> 6) * 0x9E3779B97F4A7C15ULL >> 43;
   for (size_t i = 0; i < kSlots; i++) { Slot* s = &g_tab[(h + i) & (kSlots - 1)]; if (s->state == 0 || s->p == p) return s; }
@@ -31,7 +46,7 @@ NOSCHED static Slot* find_slot(void* p) {
 NOSCHED static void* t_malloc(size_t n) {
   long k = ++g_calls;
   if (k == g_failat) { g_fail_tid = vsim::active() ? vsim::self() : 0; return nullptr; }
-  void* p = sd::FixedHeap::grab((n ? n : 1));   // fixed-address backing store (blocks are never recycled here)
+  void* p = t_grab(n ? n : 1);   // own fixed-address region, never recycled within a case (a second free of the same pointer stays recognisable)
   if (p) { Slot* s = find_slot(p); if (s) { s->p = p; s->n = n; s->state = 1; g_nlive++; } }
   return p;
 }
@@ -61,6 +76,7 @@ static std::vector<char> model_bytes(const mjModel* m) {
 
 int main(int argc, char** argv) {
   sd::no_aslr(argv);
+  { void* q = mmap(nullptr, kTRegion, PROT_READ | PROT_WRITE, MAP_PRIVATE | MAP_ANONYMOUS | MAP_NORESERVE, -1, 0); if (q != MAP_FAILED) t_base = (char*)q; }
   sd::g_property = "C21"; nd::g_property = "C21";
   sd::parse_args(argc, argv);
   nd::parse_args(argc, argv);
@@ -84,6 +100,7 @@ int main(int argc, char** argv) {
   uint64_t est_len = 2000;
   for (uint64_t s = sd::g_args.seed0; s < sd::g_args.seed0 + sd::g_args.n; s++) {
     Rng r(s);
+    t_rewind();
     int nmesh = 0, ntex = 0, nmuscle = 0;
     bool fuse = false;
     std::string xml = ag::gen_xml(r, &nmesh, &ntex, &nmuscle, nd::g_args.mdrop, true, &fuse);
@@ -127,6 +144,19 @@ int main(int argc, char** argv) {
       if (raised) sd::violation("error-escaped-compile", "mj_compile let mju_error through to the user handler on the main thread: %s", nd::g_lasterr);
       if (m) sd::violation("fault-swallowed", "allocation %ld failed (on thread %ld) but mj_compile returned a model", k, g_fail_tid);
       if (!mjs_getError(sp) || !mjs_getError(sp)[0]) sd::violation("no-error-message", "mj_compile returned NULL after a failed allocation without an error message");
+      // a deep copy of the spec whose compile has just failed is a legal next step (no fault is injected any more): it must not crash on what the
+      // failed compile left half-built in the spec's assets, and it compiles to the baseline bytes
+      if (!fuse) {
+        mjSpec* cp = mj_copySpec(sp);
+        if (!cp) sd::violation("no-recovery", "mj_copySpec of the spec whose compile failed (allocation %ld) returned NULL", k);
+        cp->compiler.usethread = 1;
+        mjModel* mcp = mj_compile(cp, nullptr);
+        if (!mcp) sd::violation("no-recovery", "the copy of the spec whose compile failed (allocation %ld) does not compile: %s", k, mjs_getError(cp));
+        std::vector<char> bc = model_bytes(mcp);
+        if (bc.size() != ref.size() || memcmp(bc.data(), ref.data(), ref.size())) sd::violation("no-recovery", "the copy of the spec whose compile failed (allocation %ld) compiles to a different model", k);
+        mj_deleteModel(mcp); mj_deleteSpec(cp);
+        sd::probe("copies_of_a_spec_after_its_failed_compile");
+      }
       // recovery: the same spec compiles fault-free, in the same process, to the baseline bytes
       // (with fusestatic a compile leaves the spec changed - C33's recorded finding - so there the recovery compile parses the XML again)
       if (fuse) { mj_deleteSpec(sp); sp = mj_parseXMLString(xml.c_str(), nullptr, err, sizeof err); sp->compiler.usethread = 1; sd::probe("recovery_from_reparsed_spec_(fusestatic)"); }
